@@ -57,6 +57,9 @@ type fileSpec struct {
 	Name string `json:"name"`
 	Size int    `json:"size"`
 	Tag  string `json:"tag"` // content = gen(Tag, Size)
+	// Same: byte-identical to the file of the same name in the previous Write
+	// of the chain (same Tag and Size as there).
+	Same bool `json:"same_as_in_previous_write,omitempty"`
 }
 
 type writeSpec struct {
@@ -73,6 +76,9 @@ func (w writeSpec) shape() string {
 			sb.WriteByte(',')
 		}
 		fmt.Fprintf(&sb, "%s:%d", f.Name, f.Size)
+		if f.Same {
+			sb.WriteByte('=')
+		}
 	}
 	sb.WriteByte('}')
 	return sb.String()
@@ -196,6 +202,57 @@ func mkWrite(kind string, idx int, label string, rng *mon.RNG) writeSpec {
 	return w
 }
 
+// carryOver makes successive versions overlap the way real ones do (an
+// unchanged trust anchor next to a renewed certificate): in 3 of 4 chains, for
+// every Write after the first, the first name it shares with the Write before
+// it gets byte-identical content (same tag and size); in half of those a
+// second shared name as well. The other shared names keep different contents,
+// names only in the earlier Write are dropped, names only in the later one are
+// added.
+func carryOver(chain []*writeSpec, rng *mon.RNG) {
+	if !rng.Chance(3, 4) {
+		return
+	}
+	for j := 1; j < len(chain); j++ {
+		prev := map[string]fileSpec{}
+		for _, f := range chain[j-1].Files {
+			prev[f.Name] = f
+		}
+		n := 1
+		if rng.Bool() {
+			n = 2
+		}
+		for i := range chain[j].Files {
+			f := &chain[j].Files[i]
+			if pf, ok := prev[f.Name]; ok && n > 0 {
+				f.Size, f.Tag, f.Same = pf.Size, pf.Tag, true
+				n--
+			}
+		}
+	}
+}
+
+// countOverlap records how two successive Writes of one Dir relate, name by name.
+func countOverlap(prefix string, prev, cur writeSpec) {
+	pm := prev.digests()
+	cm := cur.digests()
+	for n, d := range cm {
+		switch pd, ok := pm[n]; {
+		case !ok:
+			rec.Count(prefix+".name-added", 1)
+		case pd == d:
+			rec.Count(prefix+".same-name-same-content", 1)
+		default:
+			rec.Count(prefix+".same-name-different-content", 1)
+		}
+	}
+	for n := range pm {
+		if _, ok := cm[n]; !ok {
+			rec.Count(prefix+".name-dropped", 1)
+		}
+	}
+}
+
 // ---------------------------------------------------------------- plan
 
 type plan struct {
@@ -277,6 +334,19 @@ func buildPlan() []plan {
 			p.More = append(p.More, mkWrite(recKinds[rng.Intn(len(recKinds))], idx, fmt.Sprintf("m%d", j), rng))
 		}
 		p.Rec2 = mkWrite(recKinds[rng.Intn(len(recKinds))], idx, "r2", rng)
+		crng := mon.NewRNG("c18-carry", idx)
+		var chain []*writeSpec
+		for j := range p.Writes {
+			chain = append(chain, &p.Writes[j])
+		}
+		carryOver(chain, crng)
+		// the recovery Writes (fresh Dir, then the same fresh Dir again) relate
+		// to what the dead process wrote last in the same way
+		chain = []*writeSpec{&p.Writes[len(p.Writes)-1], &p.Rec1}
+		for j := range p.More {
+			chain = append(chain, &p.More[j])
+		}
+		carryOver(chain, crng)
 		out = append(out, p)
 	}
 	return out
@@ -708,7 +778,7 @@ func pollingReader(target string, started, done *atomic.Int64, stop *atomic.Bool
 		sn := readerSnap{Link: l1, Files: map[string]string{}, Done: d0}
 		list, err := os.ReadDir(l1)
 		if err != nil {
-			sn.Err = errClass(err)
+			sn.Err = "readdir:" + errClass(err)
 		}
 		for _, e := range list {
 			if !e.Type().IsRegular() {
@@ -717,7 +787,7 @@ func pollingReader(target string, started, done *atomic.Int64, stop *atomic.Bool
 			}
 			b, err := os.ReadFile(filepath.Join(l1, e.Name()))
 			if err != nil {
-				sn.Err = errClass(err)
+				sn.Err = "readfile:" + errClass(err)
 				continue
 			}
 			sn.Files[e.Name()] = digestOf(b)
@@ -1023,9 +1093,9 @@ func (c *caseRun) judgeReader(h hist, phase string, r *readerRep, extra map[stri
 		o := Obs{Kind: "symlink", Link: sn.Link, Resolved: "dir", Files: sn.Files}
 		class := ""
 		switch {
-		case strings.HasPrefix(sn.Err, "ENOENT") && len(sn.Files) == 0:
+		case strings.HasPrefix(sn.Err, "readdir:ENOENT"):
 			class = "dangling-link"
-		case strings.HasPrefix(sn.Err, "ENOENT"):
+		case strings.HasPrefix(sn.Err, "readfile:ENOENT"): // a listed file vanished while the link stayed
 			class = "partial-set"
 		case sn.Err != "":
 			rec.Inconclusive(c.idx, "polling reader could not read a version directory: "+sn.Err, sn)
@@ -1094,6 +1164,16 @@ func safeWrite(d *dir.Dir, w writeSpec) (err error, panicked any) {
 // runCase: one sequence; crash-free run first, then every crash point.
 func (c *caseRun) run() {
 	seq := hist{writes: c.p.Writes}
+	for j := 1; j < len(c.p.Writes); j++ {
+		countOverlap("successive-writes", c.p.Writes[j-1], c.p.Writes[j])
+	}
+	for j, w := range c.p.More {
+		pw := c.p.Rec1
+		if j > 0 {
+			pw = c.p.More[j-1]
+		}
+		countOverlap("successive-recovery-writes", pw, w)
+	}
 	wd := filepath.Join(c.root, fmt.Sprintf("c%d-n0", c.idx))
 	target := filepath.Join(wd, "svid")
 	rep, code, stderr, err := runChild(wd, childSpec{Target: target, Writes: c.p.Writes, Observe: true, Poll: true})
@@ -1315,7 +1395,7 @@ func TestCheck(t *testing.T) {
 	}
 	rec = mon.Open("C18")
 	defer rec.Close()
-	rec.Note("rule", "A case index is one sequence of 1-4 Writes by one Dir (file sets: empty, single file, three files, three files overlapping the names of the others with different contents, one 1 MiB file; quick: all 5 sequences of length 1, all 25 of length 2, 10 seeded ones of length 3-4; thorough: all 780 kind sequences of length 1-4 plus 1220 seeded sequences of random sets incl. zero-length files). A child process runs the sequence crash-free and looks at the target at every hook hit (H hits), while a goroutine of that child polls the target in a tight loop (a concurrent reader; only views whose link is unchanged across the read are judged; also in the recovery children of crash points in the last Write); then for EVERY n in 1..H a fresh child runs the sequence and dies (os.Exit in the hook) at hit n = one evaluation; the parent looks at the target, a fresh process with a fresh Dir performs 1-3 further Writes (watched at every hook hit), and for every n that lies in the LAST Write of the sequence (a crash in an earlier Write is the same history as a crash in the last Write of a shorter sequence) the first of those recovery Writes is itself crashed at EVERY one of its hits j (state restored from a snapshot) and recovered by yet another fresh Dir = one evaluation per (n, j). Oracle at every look: target absent (only while no Write of the history has returned nil) or resolving to a directory whose names and contents equal exactly one complete Write argument of the history so far; after every Write that returns nil the target shows exactly its set; every recovery Write returns nil; crash-free: exactly one version directory in the base directory after each Write. distinct key = (names and sizes of the sequence, n[, recovery set, j]); non-trivial = the crash point is not the very first hook of a Write (something of the interrupted Write is already on disk) or it is a second-level crash.")
+	rec.Note("rule", "A case index is one sequence of 1-4 Writes by one Dir (file sets: empty, single file, three files, three files overlapping the names of the others with different contents, one 1 MiB file; in 3 of 4 sequences successive Writes additionally share one or two names with byte-identical content, so that most successive versions show all four relations: same name same content, same name different content, name dropped, name added; quick: all 5 sequences of length 1, all 25 of length 2, 10 seeded ones of length 3-4; thorough: all 780 kind sequences of length 1-4 plus 1220 seeded sequences of random sets incl. zero-length files). A child process runs the sequence crash-free and looks at the target at every hook hit (H hits), while a goroutine of that child polls the target in a tight loop (a concurrent reader; only views whose link is unchanged across the read are judged; also in the recovery children of crash points in the last Write); then for EVERY n in 1..H a fresh child runs the sequence and dies (os.Exit in the hook) at hit n = one evaluation; the parent looks at the target, a fresh process with a fresh Dir performs 1-3 further Writes (watched at every hook hit), and for every n that lies in the LAST Write of the sequence (a crash in an earlier Write is the same history as a crash in the last Write of a shorter sequence) the first of those recovery Writes is itself crashed at EVERY one of its hits j (state restored from a snapshot) and recovered by yet another fresh Dir = one evaluation per (n, j). Oracle at every look: target absent (only while no Write of the history has returned nil) or resolving to a directory whose names and contents equal exactly one complete Write argument of the history so far; after every Write that returns nil the target shows exactly its set; every recovery Write returns nil; crash-free: exactly one version directory in the base directory after each Write. distinct key = (names and sizes of the sequence, n[, recovery set, j]); non-trivial = the crash point is not the very first hook of a Write (something of the interrupted Write is already on disk) or it is a second-level crash.")
 	req := []string{"observe.hits", "reader.stable-views-complete", "reader-recovery.stable-views-complete", "recovery.ok", "second-recovery.ok", "nocrash.exactly-one-version-dir", "crash.state.absent-before-first-write", "crash.state.earlier-set", "crash.state.new-set"}
 	for _, p := range allPoints {
 		req = append(req, "crashpoint."+p, "observe.point."+p)
@@ -1325,6 +1405,9 @@ func TestCheck(t *testing.T) {
 	}
 	for _, r := range reuseRelations {
 		req = append(req, "reuse.write."+r)
+	}
+	for _, r := range []string{"same-name-same-content", "same-name-different-content", "name-dropped", "name-added"} {
+		req = append(req, "successive-writes."+r, "successive-recovery-writes."+r, "errfault.successive-writes."+r)
 	}
 	req = append(req, "reuse.after-write-ok", "reuse.caller-mutation-checks", "reuse.exactly-one-version-dir")
 	rec.Note("require", req)
